@@ -59,9 +59,13 @@ def gen(rng, count, sizes, nmaxs):
                 shifted[b * n + x + d] = base[b * n + x]
         profs = [p0, p1, p2, base, shifted]
         cid = "w%d" % k
-        recs.append(dict(id=cid, n=n, nb=nb, nmax=nmax, spacing=spacing, buckets=buckets, z=z, profs=profs, a=a, d=d,
+        # every second case: position and energy axes with different cell sizes (the scale uses the ENERGY cell)
+        box = None
+        if k % 2 == 1:
+            box = [f32(-6.0), f32(6.0), f32(rng.choice([-12.0, -9.0, -4.0])), f32(rng.choice([12.0, 7.5, 4.0]))]
+        recs.append(dict(id=cid, n=n, nb=nb, nmax=nmax, spacing=spacing, buckets=buckets, z=z, profs=profs, a=a, d=d, box=box,
                          optext=E.efcase(cid, n, nb, nmax, spacing, buckets, z, profs,
-                                         ["P0", "w", "P1", "w", "P2", "w", "P3", "w", "P4", "w"])))
+                                         ["P0", "w", "P1", "w", "P2", "w", "P3", "w", "P4", "w"], box=box)))
     return recs
 
 
@@ -73,7 +77,7 @@ def oracle(rec, A):
     # scaling: _wakescaling*N = Ib*dt*c/(sigma_z*dE_cell)
     n, nmax = rec["n"], rec["nmax"]
     f_rev, revpart, ib, e0, sd, dt, fcut = [float(x) for x in E.EXTRA]
-    delta = 12.0 / (n - 1)
+    delta = 12.0 / (n - 1) if not rec.get("box") else (float(rec["box"][3]) - float(rec["box"][2])) / (n - 1)
     want_scale = ib * dt * 2.99792458e8 / float(f32(1e-3)) / (float(f32(delta)) * sd * e0) / nmax
     if not abs(scale - want_scale) <= 1e-5 * abs(want_scale):
         return "wake scaling %g, expected Ib*dt*c/(sigma_z*dE_cell)/N = %g" % (scale, want_scale)
